@@ -109,3 +109,71 @@ def polarity(expr, is_var, sign=1):
             if polarity(c, is_var, 0):
                 out.add(0)
     return out
+
+
+UNKNOWN = object()
+
+
+def eval_guard(expr, env):
+    """Evaluate a guard expression over a finite abstract domain: *env* maps the normalised
+    text of atoms (``level``, ``options.at_level`` ...) to concrete representatives or to a
+    callable(expr) -> value.  Returns a Python value or UNKNOWN.  No program statement is
+    executed; only comparison / boolean structure of the guard itself is interpreted."""
+    import ast as _ast
+    from .srcmodel import norm as _norm
+    key = _norm(expr)
+    if key in env:
+        v = env[key]
+        return v(expr) if callable(v) else v
+    if isinstance(expr, _ast.Constant):
+        return expr.value
+    if isinstance(expr, _ast.BoolOp):
+        vals = [eval_guard(v, env) for v in expr.values]
+        if isinstance(expr.op, _ast.And):
+            for v in vals:
+                if v is not UNKNOWN and not v:
+                    return False
+            return UNKNOWN if any(v is UNKNOWN for v in vals) else True
+        for v in vals:
+            if v is not UNKNOWN and v:
+                return True
+        return UNKNOWN if any(v is UNKNOWN for v in vals) else False
+    if isinstance(expr, _ast.UnaryOp) and isinstance(expr.op, _ast.Not):
+        v = eval_guard(expr.operand, env)
+        return UNKNOWN if v is UNKNOWN else (not v)
+    if isinstance(expr, _ast.Compare):
+        left = eval_guard(expr.left, env)
+        res = True
+        for op, c in zip(expr.ops, expr.comparators):
+            right = eval_guard(c, env)
+            if left is UNKNOWN or right is UNKNOWN:
+                return UNKNOWN
+            try:
+                if isinstance(op, _ast.Eq):
+                    r = left == right
+                elif isinstance(op, _ast.NotEq):
+                    r = left != right
+                elif isinstance(op, _ast.Lt):
+                    r = left < right
+                elif isinstance(op, _ast.LtE):
+                    r = left <= right
+                elif isinstance(op, _ast.Gt):
+                    r = left > right
+                elif isinstance(op, _ast.GtE):
+                    r = left >= right
+                elif isinstance(op, _ast.Is):
+                    r = left is right
+                elif isinstance(op, _ast.IsNot):
+                    r = left is not right
+                elif isinstance(op, _ast.In):
+                    r = left in right
+                elif isinstance(op, _ast.NotIn):
+                    r = left not in right
+                else:
+                    return UNKNOWN
+            except TypeError:
+                return UNKNOWN
+            res = res and r
+            left = right
+        return res
+    return UNKNOWN
